@@ -35,7 +35,7 @@ From FB.Model Require Import Types Monad CreatedFiles SimpleOps Builder Persist 
 From FB.Spec Require Import Ref Oracle Faithful.
 From FB.Model Require Import Core CoreOracle CoreCache.
 From FB.Model Require Import PersistSpec.
-From FB.Proofs Require Import ReplayLaws BuildFileLaws FrameLaws CleanLaws CoreLaws2 CoreLaws5 CoreLaws6 CoreLaws7 CoreNextDefs CoreNextThm ViewDefs ViewInit ViewXDefs ViewXRun ViewR2 ViewR3 ViewK3 ViewK4 ViewK8 HashMemoInv HashMemoRun SimA0 SimAMain SimC0 SimC12 SimC13 SimD4 SimD9 SimE3 SimG1 SimG5 SimG6 SimC14 SimC15 SimD5 SimD7 SimF6 SimF8 SimJ4 SimJ10 SimM3 SimM6 SimN3 SimR2 CacheRTOpen RollbackLaws RollbackDirsLaws.
+From FB.Proofs Require Import ReplayLaws BuildFileLaws FrameLaws CleanLaws CoreLaws2 CoreLaws5 CoreLaws6 CoreLaws7 CoreNextDefs CoreNextThm ViewDefs ViewInit ViewXDefs ViewXRun ViewR2 ViewR3 ViewK3 ViewK4 ViewK8 HashMemoInv HashMemoRun SimA0 SimAMain SimC0 SimC12 SimC13 SimD4 SimD9 SimE3 SimG1 SimG5 SimG6 SimC14 SimC15 SimD5 SimD7 SimF6 SimF8 SimJ4 SimJ10 SimM3 SimM6 SimN3 SimR2 SimS2 CacheRTOpen RollbackLaws RollbackDirsLaws.
 (* T1g: Model/BuildDirs.v and Model/CreatedFiles.v are equal to the translation of build_dirs.py / created_files.py
    (Gen/BookGen.v, regenerated on every run); a change of those sources that the model does not follow breaks this import *)
 From FB.Proofs Require BookGenLaws.
@@ -214,15 +214,14 @@ Proof. exact okcH_next_closed. Qed.
    serialisation; SimN1-3.v: hence the cache the next build reads is the normal form of the cache the previous build
    held): chainN asks per step only that the next tree agrees with the previous final tree at the cache file, that the
    clock does not run backwards, prog_paths_wf, and SideH - which still contains faithful_cache of the cache read
-   (SimN3.next_faithful_statement: not proved).  old_ok is assumed of no cache (SimR1-2.v, chainR: SideH is asked only
-   under old_ok of the cache read, which the previous build supplies); in exchange chainR asks AdoptedApart of every
-   build after the first that has a successor (no adopted old output is a proper ancestor of a target:
-   SimR2.adopted_apart_statement, not proved; not needed for two successive builds: SimR2.mech_two_builds_ok). *)
+   (SimN3.next_faithful_statement: not proved) - the ONE hypothesis about the previous cache left per build.
+   old_ok is assumed of no cache (SimR1-2.v, SimS1-2.v: chainS asks SideH only under old_ok of the cache read, which the
+   previous build supplies; adopted old outputs are regular files of the starting tree: SimS1.run_adopted). *)
 Theorem C01_mechanism_chain_partial : forall cf nm l b, path_wf cf = true ->
   lookup (w_fs (b_w b)) cf = None ->
   (old_ok (b_old cf nm b) cf -> SideH cf nm b) -> prog_paths_wf (b_root b) ->
-  chainR cf nm b l -> Forall (good cf nm) (b :: l).
-Proof. exact mech_chain_hash_ok. Qed.
+  chainS cf nm b l -> Forall (good cf nm) (b :: l).
+Proof. exact mech_chain_hash_ok2. Qed.
 
 (* the hypotheses are satisfiable: a content oracle read off the tree, and a concrete instance
    (a previous cache, a tree on which the replay succeeds) *)
